@@ -293,7 +293,7 @@ bool FileLogger::rotate(bool force)
 			rlst.push_back(ostr.str());
 		}
 
-		for (unsigned ii(_rotnum); ii; --ii)
+		for (size_t ii(rlst.size() - 1); ii; --ii) // the list holds at most max_rotation generations
 			rename (rlst[ii - 1].c_str(), rlst[ii].c_str());
 	}
 
